@@ -1098,6 +1098,7 @@ class Frame(object):
             'tstart': self.mjd,
             'nchans': self.fchans,
             'fch1': self.fch1 * 1e-6,
+            'source_name': self.source_name,
         }
         if self.ascending:
             header_attr['foff'] = self.df * 1e-6
